@@ -456,6 +456,17 @@ func (n *ForNode) renderForLoop(w io.Writer, ctx *RenderContext, seq interface{}
 	// Update loop.length
 	loopVars["loop"].(map[string]interface{})["length"] = length
 
+	// A nested loop has its own loop variable: when this loop ends, the loop
+	// variable of the enclosing loop (if any) becomes visible again
+	prevLoop, hadPrevLoop := loopCtx.context["loop"]
+	defer func() {
+		if hadPrevLoop {
+			loopCtx.context["loop"] = prevLoop
+		} else {
+			delete(loopCtx.context, "loop")
+		}
+	}()
+
 	// Iterate based on the type
 	switch val.Kind() {
 	case reflect.Slice, reflect.Array:
